@@ -40,9 +40,13 @@ pub struct Live {
 
 impl Live {
     pub fn new(id: u32, pki: &Pki, rng: &mut rand_chacha::ChaCha8Rng, reader_registry: TrustAnchorRegistry, elems: &[&str]) -> Live {
-        let mut sim = Sim::new(id, pki, rng, &[MDL], elems, reader_registry, TrustAnchorRegistry::default());
-        let reqs = vec![ItemsRequest { doc_type: MDL.into(), namespaces: sess::simple_namespaces(elems), request_info: None }];
-        sim.dev.prepare_response(&reqs, sess::permit_all(&[MDL], elems));
+        Live::new_for(id, pki, rng, reader_registry, elems, MDL)
+    }
+    /// the held (and answered) document has type `doc_type`
+    pub fn new_for(id: u32, pki: &Pki, rng: &mut rand_chacha::ChaCha8Rng, reader_registry: TrustAnchorRegistry, elems: &[&str], doc_type: &str) -> Live {
+        let mut sim = Sim::new(id, pki, rng, &[doc_type], elems, reader_registry, TrustAnchorRegistry::default());
+        let reqs = vec![ItemsRequest { doc_type: doc_type.into(), namespaces: sess::simple_namespaces(elems), request_info: None }];
+        sim.dev.prepare_response(&reqs, sess::permit_all(&[doc_type], elems));
         let payload = sim.dev.get_next_signature_payload().map(|(_, p)| p.to_vec()).unwrap();
         let sig: Signature = sim.device_key.sign(&payload);
         sim.dev.submit_next_signature(sig.to_vec()).unwrap();
@@ -71,15 +75,25 @@ impl Live {
     pub fn resign_device(&self, v: &mut Value, key: &SigningKey) {
         if let Some(tbs) = Live::device_tbs(&self.transcript, v) { let s: Signature = key.sign(&tbs); device_sig_mut(v)[3] = Value::Bytes(s.to_vec()); }
     }
-    /// encrypt as the device's next message for this reader and let a COPY of the reader handle it
-    pub fn deliver(&self, v: &Value) -> Result<ResponseAuthenticationOutcome, String> {
-        let pt = to_bytes(v);
-        let n = sess::peek_reader(&self.sim.rdr).dev_ctr + 1;
-        let ct = sess::aes_enc(&self.sim.sk_device, &sess::iv_bytes(false, n), &pt);
-        let msg = cbor::to_vec(&SessionData { data: Some(ct.into()), status: None }).unwrap();
+    fn encrypt_for_reader(&self, v: &Value, n: u32) -> Vec<u8> {
+        let ct = sess::aes_enc(&self.sim.sk_device, &sess::iv_bytes(false, n), &to_bytes(v));
+        cbor::to_vec(&SessionData { data: Some(ct.into()), status: None }).unwrap()
+    }
+    /// encrypt as the device's next message for this reader and let a COPY of the reader handle it.
+    /// `after_genuine`: the same reader copy first handles the authentic response and sends a new request.
+    pub fn deliver_mode(&self, v: &Value, after_genuine: bool) -> Result<ResponseAuthenticationOutcome, String> {
         let mut r: reader::SessionManager = self.sim.rdr.clone();
+        let mut n = sess::peek_reader(&r).dev_ctr + 1;
+        if after_genuine {
+            let m0 = self.encrypt_for_reader(&self.resp, n);
+            let _ = r.handle_response(&m0);
+            let _ = r.new_request(sess::simple_namespaces(&["family_name"]));
+            n += 1;
+        }
+        let msg = self.encrypt_for_reader(v, n);
         crate::guarded(std::panic::AssertUnwindSafe(move || r.handle_response(&msg)))
     }
+    pub fn deliver(&self, v: &Value) -> Result<ResponseAuthenticationOutcome, String> { self.deliver_mode(v, false) }
 }
 
 fn alg_token(prot: &[u8]) -> String {
@@ -110,7 +124,10 @@ pub fn facts(v: &Value, registry: &TrustAnchorRegistry, transcript: &Value) -> S
     let nsv = d.and_then(|d| mget(d, "issuerSigned")).and_then(|i| mget(i, "nameSpaces"));
     let core = nsv.and_then(|n| mget(n, NS)).is_some();
     let chain_errs = chain.as_ref().map(|c| ValidationRuleset::Mdl.validate(c, registry).errors.len()).unwrap_or(0);
-    let ikey: Option<VerifyingKey> = chain.as_ref().and_then(|c| c.end_entity_public_key::<p256::NistP256>().ok());
+    // the key of the FIRST certificate of the x5chain, parsed with x509-cert directly (not through the library's X5Chain)
+    let first_der: Option<Vec<u8>> = match &x5v { Some(Value::Bytes(b)) => Some(b.clone()), Some(Value::Array(a)) => a.first().and_then(|x| x.as_bytes().cloned()), _ => None };
+    let ikey: Option<VerifyingKey> = first_der.and_then(|d| { use der::Decode; x509_cert::Certificate::from_der(&d).ok() })
+        .and_then(|c| VerifyingKey::from_sec1_bytes(c.tbs_certificate.subject_public_key_info.subject_public_key.raw_bytes()).ok());
     let prot = ia.and_then(|a| a.first()).and_then(|p| p.as_bytes()).cloned().unwrap_or_default();
     let payload = ia.and_then(|a| a.get(2)).and_then(|p| p.as_bytes()).cloned();
     let isig = ia.and_then(|a| a.get(3)).and_then(|p| p.as_bytes()).cloned().unwrap_or_default();
@@ -175,17 +192,47 @@ pub fn outcome_str(r: &Result<ResponseAuthenticationOutcome, String>) -> (String
     }
 }
 
-/// deliver `v`, compare with the model, evaluate the requested predicates
+/// every element the reader REPORTED must be an item of the authenticated (first mDL) document whose digest matches the MSO
+fn reported_covered(v: &Value, o: &ResponseAuthenticationOutcome) -> bool {
+    let d = mget(v, "documents").and_then(|d| d.as_array()).and_then(|a| a.iter().find(|x| mget(x, "docType").and_then(|s| s.as_text()) == Some(MDL)));
+    let Some(d) = d else { return o.response.is_empty() };
+    let payload = mget(d, "issuerSigned").and_then(|i| mget(i, "issuerAuth")).and_then(cose_arr).and_then(|a| a.get(2)).and_then(|p| p.as_bytes()).cloned();
+    let mso_v: Option<Value> = payload.as_ref().and_then(|p| cbor::from_slice::<Value>(p).ok()).and_then(|v| match v { Value::Tag(24, b) => b.as_bytes().and_then(|bb| cbor::from_slice::<Value>(bb).ok()), _ => None });
+    let alg = mso_v.as_ref().and_then(|m| mget(m, "digestAlgorithm")).and_then(|a| a.as_text()).unwrap_or("").to_string();
+    let hash = |b: &[u8]| -> Vec<u8> { match alg.as_str() { "SHA-384" => sha2::Sha384::digest(b).to_vec(), "SHA-512" => sha2::Sha512::digest(b).to_vec(), _ => sha2::Sha256::digest(b).to_vec() } };
+    for (ns, elems) in &o.response {
+        let Some(obj) = elems.as_object() else { continue };
+        for (ident, _val) in obj {
+            let items = mget(d, "issuerSigned").and_then(|i| mget(i, "nameSpaces")).and_then(|n| mget(n, ns)).and_then(|a| a.as_array()).cloned().unwrap_or_default();
+            let vd = mso_v.as_ref().and_then(|m| mget(m, "valueDigests")).and_then(|x| mget(x, ns)).and_then(|x| x.as_map()).cloned().unwrap_or_default();
+            let covered = items.iter().any(|it| (|| { let b = match it { Value::Tag(24, b) => b.as_bytes()?.clone(), _ => return None };
+                let iv: Value = cbor::from_slice(&b).ok()?;
+                if mget(&iv, "elementIdentifier")?.as_text()? != ident { return None; }
+                let id: i128 = mget(&iv, "digestID")?.as_integer()?.into();
+                let want = vd.iter().find(|(k, _)| k.as_integer().map(i128::from) == Some(id))?.1.as_bytes()?.clone();
+                Some(want == hash(&to_bytes(it))) })().unwrap_or(false));
+            if !covered { return false; }
+        }
+    }
+    true
+}
+
+/// deliver `v` (to a fresh copy of the reader, and to a copy that has just handled the authentic
+/// response), compare with the model, evaluate the requested predicates
 pub fn eval(ctx: &mut Ctx, tag: &str, live: &Live, registry: &TrustAnchorRegistry, v: &Value, specs: &[&str], transcript_for_facts: &Value) {
-    let f = facts(v, registry, transcript_for_facts);
-    let r = live.deliver(v);
-    let (real, issuer, device, errs_empty) = outcome_str(&r);
-    let case = serde_json::json!({"alteration": tag, "facts": f, "real": real, "msg_hex": hex::encode(to_bytes(v))});
-    ctx.emit.line("corr", tag, format!("resp.outcome {f}"), real.clone(), case.clone());
-    if real == "panic" { return; }
-    for s in specs {
-        let op = match *s { "c03" => format!("spec.c03 {issuer} {} {f}", if errs_empty { "t" } else { "f" }), "c04" => format!("spec.c04 {issuer} {f}"), _ => format!("spec.c05 {device} {f}") };
-        ctx.emit.line("spec", &format!("spec:{s}:{tag}"), op, "true".into(), case.clone());
+    for after_genuine in [false, true] {
+        let mut f = facts(v, registry, transcript_for_facts);
+        let r = live.deliver_mode(v, after_genuine);
+        if let Ok(o) = &r { if !reported_covered(v, o) { f = f.replace("dig=t", "dig=f"); } }
+        let (real, issuer, device, errs_empty) = outcome_str(&r);
+        let tag2 = if after_genuine { format!("{tag}:after-genuine") } else { tag.to_string() };
+        let case = serde_json::json!({"alteration": tag2, "facts": f, "real": real, "msg_hex": format!("{}{}", hex::encode(to_bytes(v)), after_genuine)});
+        ctx.emit.line("corr", &tag2, format!("resp.outcome {f}"), real.clone(), case.clone());
+        if real == "panic" { continue; }
+        for s in specs {
+            let op = match *s { "c03" => format!("spec.c03 {issuer} {} {f}", if errs_empty { "t" } else { "f" }), "c04" => format!("spec.c04 {issuer} {f}"), _ => format!("spec.c05 {device} {f}") };
+            ctx.emit.line("spec", &format!("spec:{s}:{tag2}"), op, "true".into(), case.clone());
+        }
     }
 }
 
@@ -235,6 +282,19 @@ pub fn run_c03(ctx: &mut Ctx) {
         let mut exp = world::leaf_spec("CN=ds,C=US", "CN=iaca,C=US", &pki.ds_key, &pki.iaca_key, world::EKU_DS); exp.not_before = -7200; exp.not_after = -3600;
         { let mut v = base.clone(); subst(&mut v, &world::build_cert(&exp, &pki.ds_key, &pki.iaca_key)); go(ctx, "cert-expired-same-key", &v); }
         { let mut v = base.clone(); subst(&mut v, &pki.iaca); go(ctx, "cert-iaca-as-leaf", &v); }
+        // forged signer: attacker key, certificate copying the genuine DS's issuer name and serial, MSO re-signed by the attacker
+        let resign_issuer = |v: &mut Value, key: &SigningKey| { let a = issuer_auth_mut(v); let prot = a[0].as_bytes().cloned().unwrap_or_default(); let pl = a[2].as_bytes().cloned().unwrap_or_default();
+            let tbs = to_bytes(&Value::Array(vec![Value::Text("Signature1".into()), Value::Bytes(prot), Value::Bytes(vec![]), Value::Bytes(pl)])); let s: Signature = key.sign(&tbs); a[3] = Value::Bytes(s.to_vec()); };
+        let attacker = world::key_from(&mut rng);
+        let forged = world::build_cert(&world::leaf_spec("CN=ds,C=US", "CN=iaca,C=US", &attacker, &pki.iaca_key, world::EKU_DS), &attacker, &attacker);
+        { let mut v = base.clone(); subst(&mut v, &forged); resign_issuer(&mut v, &attacker); go(ctx, "cert-forged-copying-issuer-and-serial", &v); }
+        // genuine DS first, attacker certificate last, MSO signed by the attacker
+        { let mut v = base.clone(); use der::Encode; let arr = Value::Array(vec![Value::Bytes(pki.ds.to_der().unwrap()), Value::Bytes(forged.to_der().unwrap())]);
+          if let Value::Map(m) = &mut issuer_auth_mut(&mut v)[1] { for (k, x) in m.iter_mut() { if k.as_integer().map(i128::from) == Some(33) { *x = arr.clone(); } } }
+          resign_issuer(&mut v, &attacker); go(ctx, "x5chain-genuine-first-attacker-last-signed-by-attacker", &v); }
+        { let mut v = base.clone(); use der::Encode; let arr = Value::Array(vec![Value::Bytes(forged.to_der().unwrap()), Value::Bytes(pki.ds.to_der().unwrap())]);
+          if let Value::Map(m) = &mut issuer_auth_mut(&mut v)[1] { for (k, x) in m.iter_mut() { if k.as_integer().map(i128::from) == Some(33) { *x = arr.clone(); } } }
+          go(ctx, "x5chain-attacker-first-genuine-last", &v); }
         // a chain of two certificates (leaf first)
         { let mut v = base.clone(); use der::Encode; let arr = Value::Array(vec![Value::Bytes(pki.ds.to_der().unwrap()), Value::Bytes(pki.iaca.to_der().unwrap())]);
           if let Value::Map(m) = &mut issuer_auth_mut(&mut v)[1] { for (k, x) in m.iter_mut() { if k.as_integer().map(i128::from) == Some(33) { *x = arr.clone(); } } } go(ctx, "x5chain-array-leaf-first", &v); }
@@ -278,6 +338,16 @@ pub fn run_c04(ctx: &mut Ctx) {
           if let Some(x) = mget_mut(mget_mut(doc0_mut(&mut v).unwrap(), "issuerSigned").unwrap(), "issuerAuth") { *x = ia; }
           go(ctx, "mso-of-other-doctype", &mut v, true); }
         { let mut v = base.clone(); if let Some(items) = items_mut(&mut v, NS) { items.swap(0, n_items - 1); } go(ctx, "items-reordered", &mut v, false); }
+        // two mDL documents: the authentic one stripped of its items, followed by a forged one carrying items
+        { let mut v = base.clone();
+          let mut forged = doc0(&v).cloned().unwrap();
+          if let Some(Value::Array(items)) = mget_mut(mget_mut(&mut forged, "issuerSigned").unwrap(), "nameSpaces").and_then(|n| mget_mut(n, NS)) {
+              items.push(Value::Tag(24, Box::new(Value::Bytes(to_bytes(&Value::Map(vec![(Value::Text("digestID".into()), Value::Integer(4321.into())), (Value::Text("random".into()), Value::Bytes(vec![7; 16])),
+                  (Value::Text("elementIdentifier".into()), Value::Text("age_over_21".into())), (Value::Text("elementValue".into()), Value::Bool(true))])))))); }
+          crate::auth::mdel(mget_mut(doc0_mut(&mut v).unwrap(), "issuerSigned").unwrap(), "nameSpaces");
+          if let Some(Value::Array(docs)) = mget_mut(&mut v, "documents") { docs.push(forged); }
+          go(ctx, "two-mdl-documents-authentic-empty-then-forged", &mut v, false); }
+        { let mut v = base.clone(); let forged = doc0(&v).cloned().unwrap(); if let Some(Value::Array(docs)) = mget_mut(&mut v, "documents") { docs.push(forged); } go(ctx, "two-mdl-documents-duplicate", &mut v, false); }
     }
 }
 
@@ -310,6 +380,15 @@ pub fn run_c05(ctx: &mut Ctx) {
         // cross-session replay: A's authentic response re-encrypted for B's reader (and vice versa)
         go(ctx, &b, "cross-session-replay", &a.resp);
         go(ctx, &a, "cross-session-replay", &b.resp);
+        // A's signature with A's signed bytes placed in the (normally nil) payload slot, delivered in session B
+        { let mut v = a.resp.clone();
+          let da = Value::Array(vec![Value::Text("DeviceAuthentication".into()), a.transcript.clone(), Value::Text(MDL.into()), mget(mget(doc0(&v).unwrap(), "deviceSigned").unwrap(), "nameSpaces").cloned().unwrap()]);
+          device_sig_mut(&mut v)[2] = Value::Bytes(to_bytes(&Value::Tag(24, Box::new(Value::Bytes(to_bytes(&da))))));
+          go(ctx, &b, "cross-session-replay-with-attached-original-payload", &v); go(ctx, &a, "same-session-attached-original-payload", &v); }
+        // a genuinely issued and signed document of another docType relabelled as an mDL (MSO and signature say the other docType)
+        { let c = Live::new_for(3, &pki, &mut rng, reg.clone(), &elems, "org.example.loyalty");
+          let mut v = c.resp.clone(); if let Some(x) = mget_mut(doc0_mut(&mut v).unwrap(), "docType") { *x = Value::Text(MDL.into()); }
+          go(ctx, &c, "other-doctype-relabelled-as-mdl", &v); }
         // wrong signing key
         { let mut v = a.resp.clone(); let k = world::key_from(&mut rng); a.resign_device(&mut v, &k); go(ctx, &a, "wrong-key", &v); }
         { let mut v = a.resp.clone(); a.resign_device(&mut v, &pki.ds_key); go(ctx, &a, "signed-with-issuer-key", &v); }
